@@ -45,8 +45,8 @@ CONSTANT NP = %d
 CONSTANT T = %d
 CONSTANT Sizes = {0}
 CONSTANT MaxWrites = 1000000
-CONSTANT Kind = "collector"
-CONSTANT FailAt = 0
+CONSTANT Kind = "%s"
+CONSTANT FailAt = %d
 CONSTANT CreateFails = FALSE
 CONSTANT Coarse = TRUE
 CONSTANT Emit = FALSE
@@ -59,7 +59,7 @@ CHECK_DEADLOCK FALSE
 """
 
 
-def validate_events(chk, runs, np, t, name):
+def validate_events(chk, runs, np, t, name, kind="collector", failat=0):
     """Event-level validation against Pipeline.tla. runs: list of dict(sink, name, events).
     Returns list of (run, event index) that the specification cannot explain."""
     rejected = []
@@ -68,7 +68,7 @@ def validate_events(chk, runs, np, t, name):
         if not todo:
             break
         text = "\n".join(json.dumps(dict(sink=r["sink"], events=r["events"]), separators=(",", ":")) for r in todo) + "\n"
-        res = chk.tlc("PipelineTrace", cfg_text=TRACE_CFG % (np, t), workers=1, timeout=900, files={"trace.ndjson": text},
+        res = chk.tlc("PipelineTrace", cfg_text=TRACE_CFG % (np, t, kind, failat), workers=1, timeout=900, files={"trace.ndjson": text},
                       count=False, name=name)
         if res.violated:
             # an invariant of Pipeline.tla failed on a state of the trace
